@@ -309,11 +309,21 @@ func UpdateCheckpoint(outCli client.Redis, localCheckpoint string, ids []string)
 			Offset:  -1,
 			Version: config.Version,
 		}
+		// the re-keyed checkpoint must stay in the database that held the newest
+		// position: GetCheckpoint leaves the connection on whichever database its
+		// map iteration visited last
+		cpDb := 0
 		if len(cpName) > 0 { // restore old checkpoint
-			cpKv, _, err = GetCheckpoint(outCli, cpName, ids)
+			cpKv, cpDb, err = GetCheckpoint(outCli, cpName, ids)
 			if err != nil {
 				return err
 			}
+			if cpDb < 0 {
+				cpDb = 0
+			}
+		}
+		if err = redis.SelectDB(outCli, uint32(cpDb)); err != nil {
+			return err
 		}
 
 		oldId := cpKv.RunId
